@@ -13,6 +13,13 @@ files=$(grep '^+++ ' "$patch" | sed 's#^+++ [ab]/##' | awk '{print $1}')
 mkdir -p "$scratch/src"
 for f in $files; do mkdir -p "$scratch/src/$(dirname $f)"; [ -f /repo/$f ] && cp /repo/$f "$scratch/src/$f"; done
 ( cd "$scratch/src" && patch -p1 -s < "$patch" ) || { echo "mutant: patch does not apply"; exit 2; }
+# a patched file that the standing overlay already rewrites (O-groupmutex: `sync` -> harness shim in
+# group_mutex.go) gets the same one-line rewrite, so the mutated code runs under the controlled scheduler
+gm=pkg/binder/binding/resourcereservation/group_mutex/group_mutex.go
+if [ -f "$scratch/src/$gm" ]; then
+  sed -i 's#^\([[:space:]]*\)"sync"[[:space:]]*$#\1sync "verif/mc/checks/binderrun/syncshim"#' "$scratch/src/$gm"
+  grep -q 'sync "verif/mc/checks/binderrun/syncshim"' "$scratch/src/$gm" || { echo "mutant: group_mutex.go rewrite failed"; exit 2; }
+fi
 python3 - "$scratch" $files <<'P'
 import json,sys
 scratch=sys.argv[1]; files=sys.argv[2:]
